@@ -1001,6 +1001,76 @@ def run_cli_layouts(chk, base):
     chk.cov["cli_output_layouts"] = nl
     chk.cov["cli_layout_builds"] = nb
 
+def run_cli_dirs(chk, base):
+    """Commands whose declared output is a DIRECTORY: the output no longer matches what was produced when an entry is
+    removed / added inside (the directory's time stamp moves), when it is touched, or when it is replaced by a file."""
+    import time
+    llb = vlib.llbuild_bin()
+    n = nb = 0
+    for dname in ("gen.d", "out/"):
+        for tamper in ("remove-entry", "add-entry", "touch-directory", "replace-by-file", "none"):
+            sb = os.path.join(base, "cli", "dir-%s-%s" % (dname.strip("/"), tamper))
+            os.makedirs(sb)
+            D = dname.rstrip("/")
+            scr = ("echo GEN >> runs.log; [ -d %s ] || { rm -f %s; mkdir -p %s; }; [ -f %s/data.txt ] || echo payload > %s/data.txt" % (D, D, D, D, D)).encode()
+            g = new_def(name=b"GEN", outputs=[dname.encode()], args=SH + [scr])
+            h = new_def(name=b"H", inputs=[b"h.in"], outputs=[b"h.out"], args=SH + [script("H", ["h.out"])])
+            allc = new_def(tool="phony", name=b"all", inputs=[dname.encode(), b"h.out"], outputs=[b"<all>"], args=[])
+            open(os.path.join(sb, "h.in"), "w").write("h\n")
+            bf = os.path.join(sb, "build.llbuild")
+            open(bf, "wb").write(render_file([g, h, allc], targets={b"": [b"<all>"]}))
+            log = os.path.join(sb, "runs.log")
+            history = []
+            def build(label):
+                nonlocal nb
+                if os.path.exists(log):
+                    os.remove(log)
+                rc, out, err = vlib.sh([llb, "buildsystem", "build", "--serial", "--chdir", sb, "--db", "build.db", "-f", bf], timeout=120)
+                nb += 1
+                ran = sorted(open(log).read().split()) if os.path.exists(log) else []
+                history.append(dict(step=label, rc=rc, executed=ran, stderr=err[-300:]))
+                return rc, ran
+            def fail(key, what):
+                chk.violation(key, what, dict(output=dname, tamper=tamper, sandbox=sb, file=bf, history=history,
+                                              how="llbuild buildsystem build --serial --chdir <sandbox> --db build.db -f build.llbuild, one process per step; executed = tags appended to runs.log"),
+                              found_input=True, broken="c09 oracle on llbuild buildsystem build (directory output)")
+            n += 1
+            rc, ran = build("first")
+            if rc != 0 or ran != ["GEN", "H"]:
+                fail("cli-first-build", "the first build with the directory output %s executed %s (exit %d)" % (dname, ran, rc)); continue
+            rc, ran = build("null")
+            chk.count(("cli-dir", dname, tamper, "null"))
+            if rc != 0 or ran:
+                fail("cli-null-build-executes", "a command whose output is the directory %s executed again (%s) in a build right after a successful build" % (dname, ran)); continue
+            if tamper == "none":
+                shutil.rmtree(sb, ignore_errors=True); continue
+            time.sleep(0.03)     # coarse file system clock: the tampering must not fall into the tick of the command's own writes
+            dp = os.path.join(sb, D)
+            if tamper == "remove-entry":
+                os.remove(os.path.join(dp, "data.txt"))
+            elif tamper == "add-entry":
+                open(os.path.join(dp, "extra.txt"), "w").write("x\n")
+            elif tamper == "touch-directory":
+                os.utime(dp, ns=(10**18, 10**18))
+            else:
+                shutil.rmtree(dp)
+                open(dp, "w").write("now a file\n")
+            rc, ran = build(tamper)
+            chk.count(("cli-dir", dname, tamper, "edit"))
+            if rc != 0 or ran != ["GEN"]:
+                fail("cli-not-rerun-directory-output-" + tamper if "GEN" not in ran else "cli-spurious-rerun-directory-output-" + tamper,
+                     "after `%s` on the directory output %s the build executed %s instead of exactly its producer GEN (exit %d)" % (tamper, dname, ran, rc))
+                continue
+            if not os.path.isfile(os.path.join(dp, "data.txt")):
+                fail("cli-directory-output-not-regenerated", "after `%s` the producer ran but %s/data.txt is missing" % (tamper, D)); continue
+            rc, ran = build("null-again")
+            chk.count(("cli-dir", dname, tamper, "null-again"))
+            if rc != 0 or ran:
+                fail("cli-null-build-executes", "after the producer of the directory %s re-ran, a build with nothing changed executed %s" % (dname, ran)); continue
+            shutil.rmtree(sb, ignore_errors=True)
+    chk.cov["cli_directory_output_scenarios"] = n
+    chk.cov["cli_directory_output_builds"] = nb
+
 # ---------------------------------------------------------------- entry points
 
 def run(chk):
@@ -1014,6 +1084,7 @@ def run(chk):
     run_cli(chk, base)
     run_cli_symlink(chk, base)
     run_cli_layouts(chk, base)
+    run_cli_dirs(chk, base)
     if not chk.violations:
         shutil.rmtree(os.path.join(base, "defs"), ignore_errors=True)
         shutil.rmtree(os.path.join(base, "nodes"), ignore_errors=True)
@@ -1026,7 +1097,7 @@ def run(chk):
     return chk.finish(level="proof",
                       rule="signatures: random shell / phony / mkdir definitions over an alphabet of YAML-hostile atoms (quotes, escapes, control bytes, multi-byte UTF-8, empty strings, duplicate and shared node names, explicit signature) loaded by the real loader; "
                            "every definition: getSignature() == fold of llvm::hash_combine over the model tokens; pairs: every applicable single-attribute edit kind incl. every list-boundary move and adjacent-argument boundary move; "
-                           "symlink commands with and without link-output-path (virtual declared output pattern), repair flag, one-attribute pairs (output, contents, inputs relevant; link-output-path, repair flag, name unhashed); non-trivial = every definition / pair (distinct by model token list); cli: one scenario per edit kind, each = first build, null build, edited build, null build in four processes over one database; 12 symlink scenarios (executions read from the LINK lines llbuild prints); output lists mixing virtual and file nodes in every order (quick: 12 layouts, thorough: all of length <= 4): two null builds, then each file output deleted / modified / touched in turn",
+                           "symlink commands with and without link-output-path (virtual declared output pattern), repair flag, one-attribute pairs (output, contents, inputs relevant; link-output-path, repair flag, name unhashed); non-trivial = every definition / pair (distinct by model token list); cli: one scenario per edit kind, each = first build, null build, edited build, null build in four processes over one database; 12 symlink scenarios (executions read from the LINK lines llbuild prints); output lists mixing virtual and file nodes in every order (quick: 12 layouts, thorough: all of length <= 4): two null builds, then each file output deleted / modified / touched in turn; directory outputs (plain node `gen.d` and directory node `out/`): entry removed / added inside, directory touched, directory replaced by a file",
                       trusted=["ideal hash: llvm::hash_combine collision-free on compared token lists",
                                "hand-written model coq/BSys/Sig.v, tied by the exact 64-bit correspondence check",
                                "harness/cpp/sig_driver.cpp", "extraction (ExtrOcamlBasic) + ocaml/vmodel_sig.ml"])
